@@ -488,3 +488,30 @@ Proof. vm_compute. reflexivity. Qed.
 (* the behaviour before /repo 04ce759 (membership tested with identical=True): KeyError *)
 Lemma chains_map_old_flag_refuted : chains_map_gen true swapped_identical_group = None.
 Proof. vm_compute. reflexivity. Qed.
+
+(* quantifier form of the evaluated facts *)
+Lemma chains_bintree_le7_forall :
+  forall n, In n [2; 3; 4; 5; 6; 7] -> forall c, In c (from_particles n) -> chain_bintree_ok n c = true.
+Proof.
+  intros n Hn. apply (proj1 (forallb_forall _ _)).
+  exact (proj1 (forallb_forall _ _) chains_bintree_le7 n Hn).
+Qed.
+Lemma table_roundtrip_le7_forall :
+  forall n, In n [2; 3; 4; 5; 6; 7] -> forall c, In c (from_particles n) -> table_roundtrip_ok c = true.
+Proof.
+  intros n Hn. apply (proj1 (forallb_forall _ _)).
+  exact (proj1 (forallb_forall _ _) table_roundtrip_le7 n Hn).
+Qed.
+Lemma std_homomorphism_le6_forall :
+  forall n, In n [2; 3; 4; 5; 6] -> forall c, In c (from_particles n) ->
+    homomorphism_ok (standard_topology c) c && homomorphism_ok c (standard_topology c) = true.
+Proof.
+  intros n Hn. apply (proj1 (forallb_forall _ _)).
+  exact (proj1 (forallb_forall _ _) std_homomorphism_le6 n Hn).
+Qed.
+Lemma chains_map_partition_le5_both :
+  (forall n, In n [2; 3; 4; 5] -> chains_map_partition_ok false (from_particles n) = true)
+  /\ chains_map_partition_ok false swapped_identical_group = true.
+Proof.
+  split; [exact (proj1 (forallb_forall _ _) chains_map_partition_le5) | exact chains_map_swapped_identical_ok].
+Qed.
